@@ -244,6 +244,20 @@ def run_property(prop, tier, seed, args):
                 for n_, ok, d in res["judgements"]:
                     if n_ == key and ok is False:
                         confirmed = True
+            if not confirmed:
+                # DESIGN 2.9 step 4: the model came from a loop-invariant frontier (or used uninterpreted
+                # spec functions freely): look for a real failing input in the contract's small search space
+                con_ = REGISTRY.contracts[r["qualname"]]
+                space = getattr(con_, "search_space", None)
+                if space is not None:
+                    for cand in space():
+                        res2 = _replay_item((r["qualname"], cand, [key], prop, None))
+                        if "error" not in res2 and any(n_ == key and ok is False for n_, ok, _d in res2["judgements"]):
+                            ref = dict(ref)
+                            ref["inputs"] = cand
+                            ref["model"] = str(ref.get("model"))[:1500] + "\n-- concrete failing input found by bounded search of the contract's search space"
+                            res, confirmed = res2, True
+                            break
             handle_refutation(prop, r, ref, res, confirmed, known, baseline, violations, known_lines, undecided)
     for e in extra:
         ob_total += 1
